@@ -16,7 +16,7 @@ PROP = 'C04'
 THEOREMS = ['C04_body_any_partition', 'C04_header_any_layout', 'C04_examples']
 RULE = ('schemas x value sequences (0..12 values) x codecs {null, deflate, snappy, bzip2, xz, zstandard(write only)} x block '
         'partitions (empty file, one value per block, one block, random) x metadata maps (multi-block, negative-count blocks, '
-        'unknown avro.* keys, user keys). non-trivial = distinct files with at least two values')
+        'unknown avro.* keys, user keys); plus single blocks of 1-3 MiB of one byte (compression ratios above 1000:1) per codec. non-trivial = distinct files with at least two values')
 
 def snappy_literal_compress(data):
     """a valid raw-snappy stream made of literals only, followed by the big-endian CRC-32 of the data"""
@@ -58,7 +58,7 @@ def write_map_blocks(r, entries):
         pos += k
     return out + b'\x00'
 
-def build_file(r, schema_text_, codec, items, extra_meta):
+def build_file(r, schema_text_, codec, items, extra_meta, one_block=False):
     """a conforming file: returns (bytes, block sizes)"""
     marker = r.bytes(16)
     entries = [(b'avro.schema', schema_text_.encode())]
@@ -67,7 +67,7 @@ def build_file(r, schema_text_, codec, items, extra_meta):
     entries += extra_meta
     r.shuffle(entries)
     out = b'Obj\x01' + write_map_blocks(r, entries) + marker
-    how = r.below(4)
+    how = 1 if one_block else r.below(4)
     parts = []
     if how == 0:
         parts = [[x] for x in items]
@@ -95,6 +95,12 @@ def gen(tier, seed):
         nv = r.choice([0, 1, 2, 3, 5, 12])
         vals = [node.gen(r, 0) for _ in range(nv)]
         cases.append(dict(schema=st, values=vals, seed=r.below(1 << 30)))
+    # blocks that compress extremely well (a run of one byte: above 1000:1 with deflate, far more with bzip2 / xz), in
+    # ONE block: a legal file whatever the ratio, in both directions
+    big = [('deflate', 3 << 20), ('bzip2', 1 << 20)] + ([] if tier == 'quick' else [('xz', 1 << 20), ('deflate', 1 << 20), ('zstandard', 1 << 20)])
+    for j, (codec, nbytes) in enumerate(big):
+        vals = ['(bytes #%s)' % ('00' * nbytes), '(bytes #7879)']
+        cases.append(dict(schema='"bytes"', values=vals, seed=j + 7, force_codec=codec))
     return cases
 
 def collect(tier, seed):
@@ -128,6 +134,8 @@ def collect(tier, seed):
         # direction A: the library writes
         c['wcodec'] = r.choice(['null', 'deflate', 'snappy', 'bzip2', 'xz', 'zstandard'])
         c['bsz'] = r.choice([0, 1, 7, 64, 16000])
+        if c.get('force_codec'):
+            c['wcodec'], c['bsz'] = c['force_codec'], 1 << 24
         ops = []
         for v in c['values']:
             ops.append('(append %s)' % v)
@@ -138,13 +146,15 @@ def collect(tier, seed):
         lines_w.append('w%d (cfile %s %s %d %s %s (finish))' % (i, hx(c['schema']), c['wcodec'], c['bsz'], hx(r.bytes(16)), ' '.join(pre + ops)))
         # direction B: the independent writer writes
         c['rcodec'] = r.choice(['null', 'deflate', 'snappy', 'bzip2', 'xz'])
+        if c.get('force_codec'):
+            c['rcodec'] = c['force_codec'] if c['force_codec'] != 'zstandard' else 'xz'
         extra = [(b'avro.unknown.key', b'x')] if r.chance(1, 2) else []
         c['ruser'] = {}
         for _ in range(r.below(4)):
             k = r.choice(['a', 'user.key', 'zz', 'avro_not_reserved'])
             c['ruser'][k] = r.bytes(r.below(5))
         extra += [(k.encode(), v) for k, v in c['ruser'].items()]
-        c['file'], c['blocks'] = build_file(r, c['schema'], c['rcodec'], items, extra)
+        c['file'], c['blocks'] = build_file(r, c['schema'], c['rcodec'], items, extra, one_block=bool(c.get('force_codec')))
         lines_r.append('r%d (cread %s)' % (i, hx(c['file'])))
     out_w = fw.run_lines(exe, lines_w)
     out_r = fw.run_lines(exe, lines_r)
@@ -168,7 +178,7 @@ def judge(run, cases, out_w, out_r):
             continue
         run.evaluations += 1
         # ---- direction A
-        case = {'direction': 'library-writes', 'schema': c['schema'], 'values': c['values'][:6], 'codec': c['wcodec'], 'block_size': c['bsz']}
+        case = {'direction': 'library-writes', 'schema': c['schema'], 'values': [v[:200] for v in c['values'][:6]], 'codec': c['wcodec'], 'block_size': c['bsz']}
         o = out_w.get('w%d' % i)
         if o is None or tag(o) != 'obs':
             run.fail('writer-' + str(tag(o) if o is not None else 'none'), 'writer outcome %s' % (show(o)[:120] if o is not None else ''), case)
@@ -208,6 +218,7 @@ def judge(run, cases, out_w, out_r):
         # ---- direction B
         case = {'direction': 'library-reads', 'schema': c['schema'], 'values': c['values'][:6], 'codec': c['rcodec'], 'blocks': c['blocks'],
                 'file': c['file'].hex()[:2000]}
+        case['values'] = [v[:200] for v in case['values']]
         o = out_r.get('r%d' % i)
         if o is None or tag(o) != 'obs':
             run.fail('reader-' + str(tag(o) if o is not None else 'none'), 'reader outcome %s' % (show(o)[:120] if o is not None else ''), case)
